@@ -97,22 +97,51 @@ def node_classes(db: DB) -> Dict[str, ClassInfo]:
     return out
 
 
+def _calls_super(fn: ast.AST, meth: str) -> bool:
+    return any(isinstance(n, ast.Call) and isinstance(n.func, ast.Attribute) and n.func.attr == meth and
+               isinstance(n.func.value, ast.Call) and norm(n.func.value.func) == "super"
+               for n in ast.walk(fn))
+
+
 def init_fields(c: ClassInfo) -> Tuple[Set[str], Dict[str, str]]:
-    """(fields assigned in __init__, parameter -> field it initialises)."""
-    init = c.methods.get("__init__")
+    """(fields assigned by the constructor - the class's own or the inherited one, following
+    super().__init__ chains -, parameter -> field it initialises)."""
     fields: Set[str] = set()
     p2f: Dict[str, str] = {}
-    if init is None:
-        return fields, p2f
-    for n in walk_no_nested(init.node):
-        if isinstance(n, (ast.Assign, ast.AnnAssign)):
-            ts = n.targets if isinstance(n, ast.Assign) else [n.target]
-            for t in ts:
-                if isinstance(t, ast.Attribute) and isinstance(t.value, ast.Name) and t.value.id == "self":
-                    fields.add(t.attr)
-                    if isinstance(n.value, ast.Name):
-                        p2f[n.value.id] = t.attr
+    follow = True
+    for k in c.mro():
+        init = k.methods.get("__init__")
+        if init is None or not follow:
+            continue
+        for n in walk_no_nested(init.node):
+            if isinstance(n, (ast.Assign, ast.AnnAssign)):
+                ts = n.targets if isinstance(n, ast.Assign) else [n.target]
+                for t in ts:
+                    if isinstance(t, ast.Attribute) and isinstance(t.value, ast.Name) and t.value.id == "self":
+                        fields.add(t.attr)
+                        if isinstance(n.value, ast.Name):
+                            p2f.setdefault(n.value.id, t.attr)
+        follow = _calls_super(init.node, "__init__")
     return fields, p2f
+
+
+def key_fields(c: ClassInfo) -> Optional[Set[str]]:
+    """self attributes in the identity key (own or inherited, following super() chains); None: no key."""
+    out: Optional[Set[str]] = None
+    follow = True
+    for k in c.mro():
+        key = k.methods.get("_Node__key")
+        if key is None or not follow:
+            continue
+        if getattr(key, "is_abstract", False) or not any(
+                isinstance(n, ast.Return) and n.value is not None for n in walk_no_nested(key.node)):
+            continue
+        out = out or set()
+        for n in walk_no_nested(key.node):
+            if isinstance(n, ast.Return) and n.value is not None:
+                out |= paths.self_attrs(n.value)
+        follow = _calls_super(key.node, "_Node__key")
+    return out
 
 
 class Kinds:
@@ -171,6 +200,10 @@ class Kinds:
             return out or {"?"}
         if isinstance(e, ast.Subscript):
             return self.elems(e.value, f, depth + 1)
+        if isinstance(e, ast.Constant) and e.value is None:
+            return set()            # "no node" (an optional operand that is tested before use)
+        if isinstance(e, ast.IfExp):
+            return self.of(e.body, f, depth + 1) | self.of(e.orelse, f, depth + 1)
         return {"?"}
 
     def elems(self, coll: Optional[ast.AST], f: FuncInfo, depth: int,
@@ -185,6 +218,22 @@ class Kinds:
                 if isinstance(target.elts[0], ast.Name) and target.elts[0].id == name:
                     return set()
             return self.elems(coll.args[0], f, depth, None, None)
+        if isinstance(coll, ast.Call) and isinstance(coll.func, ast.Name) and coll.func.id == "zip" and coll.args:
+            # for a, b in zip(xs, ys): the k-th target takes the elements of the k-th argument
+            if isinstance(target, ast.Tuple) and name is not None:
+                for k, t_ in enumerate(target.elts):
+                    if isinstance(t_, ast.Name) and t_.id == name and k < len(coll.args):
+                        return self.elems(coll.args[k], f, depth + 1, None, None)
+            out_z: Set[str] = set()
+            for a_ in coll.args:
+                out_z |= self.elems(a_, f, depth + 1, None, None)
+            return out_z
+        if isinstance(coll, ast.Subscript) and isinstance(coll.slice, ast.Slice):
+            return self.elems(coll.value, f, depth + 1, None, None)
+        if isinstance(coll, ast.BinOp) and isinstance(coll.op, ast.Add):
+            return self.elems(coll.left, f, depth + 1) | self.elems(coll.right, f, depth + 1)
+        if isinstance(coll, (ast.ListComp, ast.GeneratorExp)):
+            return self.of(coll.elt, f, depth + 1)
         if isinstance(coll, (ast.List, ast.Tuple)):
             out: Set[str] = set()
             for x in coll.elts:
@@ -193,8 +242,10 @@ class Kinds:
         if isinstance(coll, ast.Name):
             out = set()
             for st, val in paths.defs_of(f.node, coll.id):
-                if isinstance(st, ast.Call):      # xs.append(v)
-                    if val is not None:
+                if isinstance(st, ast.Call):      # xs.append(v) / xs.extend(vs)
+                    if val is not None and isinstance(st.func, ast.Attribute) and st.func.attr in ("extend", "update"):
+                        out |= self.elems(val, f, depth + 1)
+                    elif val is not None:
                         out |= self.of(val, f, depth + 1)
                 elif isinstance(st, (ast.Assign, ast.AnnAssign)) and val is not None:
                     out |= self.elems(val, f, depth + 1)
@@ -231,22 +282,22 @@ def run(db: DB, rep: Report) -> None:
         if c.subclasses and "__init__" not in c.methods:
             continue   # abstract intermediate (PartitioningNode)
         fields, p2f = init_fields(c)
-        key = c.methods.get("_Node__key")
-        kfields: Set[str] = set()
-        if key is not None:
-            for n in walk_no_nested(key.node):
-                if isinstance(n, ast.Return) and n.value is not None:
-                    kfields |= paths.self_attrs(n.value)
-        ok = key is not None and fields == kfields
+        kf = key_fields(c)
+        key = kf is not None
+        kfields: Set[str] = kf or set()
+        ok = key and fields == kfields
         rep.check("K1", ok, db.loc(c.node), c.name, "key:%s" % c.name,
                   "%s: fields %s, key %s" % (c.name, sorted(fields), sorted(kfields)),
                   "node class %s: identity key %s does not cover the constructor fields %s; two "
                   "different nodes collapse into one graph vertex (or equal nodes stay apart)" %
                   (c.name, sorted(kfields) if key else "is missing", sorted(fields)))
         # accessors
-        for nm, g in sorted(c.methods.items()):
-            if not nm.startswith("get_"):
-                continue
+        accessors = {}
+        for k in reversed(c.mro()):
+            for nm, g in k.methods.items():
+                if nm.startswith("get_"):
+                    accessors[nm] = g
+        for nm, g in sorted(accessors.items()):
             pname = nm[4:]
             want = p2f.get(pname) or p2f.get(pname + "_")
             rets = [n for n in walk_no_nested(g.node) if isinstance(n, ast.Return) and n.value is not None]
@@ -273,7 +324,8 @@ def run(db: DB, rep: Report) -> None:
                 sk = kinds.of(n.args[0], f)
                 dk = kinds.of(n.args[1], f)
                 sites.append((f, n, sk, dk))
-    unknown = [(f, n) for f, n, sk, dk in sites if "?" in sk or "?" in dk or not sk or not dk]
+    sites = [x for x in sites if x[2] and x[3]]      # an operand that is None: no edge is added
+    unknown = [(f, n) for f, n, sk, dk in sites if "?" in sk or "?" in dk]
     if unknown:
         f, n = unknown[0]
         raise AnalysisError("cannot infer the node kinds of %s at %s" % (norm(n), db.loc(n)))
@@ -285,6 +337,21 @@ def run(db: DB, rep: Report) -> None:
     pruned_cls: Set[str] = set()
     pruned_lits: Set[Tuple[str, str]] = set()
     for n in walk_no_nested(prune.node):
+        # node == OtherNode("StartLoop") (possibly through a local)
+        if isinstance(n, ast.Compare) and len(n.ops) == 1 and isinstance(n.ops[0], ast.Eq):
+            for side in (n.left, n.comparators[0]):
+                v_ = side
+                if isinstance(side, ast.Name):
+                    v_ = paths.reaching_def(side.id, n, prune.node) or side
+                if isinstance(v_, ast.Call):
+                    k_ = kinds.ctor_kind(v_)
+                    if k_ and "(" in k_:
+                        pruned_lits.add((k_.split("(")[0], k_[k_.index("(") + 1:-1]))
+        if isinstance(n, ast.Call) and isinstance(n.func, ast.Name) and n.func.id == "isinstance" and \
+                len(n.args) == 2 and isinstance(n.args[1], ast.Tuple):
+            for e_ in n.args[1].elts:
+                if isinstance(e_, ast.Name):
+                    pruned_cls.add(e_.id)
         if isinstance(n, ast.Call) and isinstance(n.func, ast.Name) and n.func.id == "isinstance" and \
                 len(n.args) == 2 and isinstance(n.args[1], ast.Name):
             cname = n.args[1].id
@@ -624,6 +691,8 @@ def run(db: DB, rep: Report) -> None:
                     if not inner and blk and blk[0] is x:
                         exits.append(x)
             why = _narrow_iter(lp.iter)
+            if why is not None and "slice" not in why:
+                why = None      # a literal tuple of elements is a whole (small) collection
             rep.check("K9", not exits and why is None, db.loc(lp), f.short, "loop:" + norm(lp.iter)[:50],
                       "loop over %s adds edges for every element" % norm(lp.iter)[:50],
                       "the loop over %s in %s, which adds the dependence edges of each element, %s: the "
@@ -781,20 +850,38 @@ def run(db: DB, rep: Report) -> None:
                 k = kinds.ctor_kind(n.value)
                 if k and not is_pruned(k):
                     locs.setdefault(n.targets[0].id, set()).add(k)
+        # plain copies of a node local (y = x, also through an inlined helper's result) are the same node
+        copies: Dict[str, Set[str]] = {}
+        for n in walk_no_nested(f.node):
+            if isinstance(n, ast.Assign) and len(n.targets) == 1 and isinstance(n.targets[0], ast.Name) and \
+                    isinstance(n.value, ast.Name):
+                copies.setdefault(n.value.id, set()).add(n.targets[0].id)
         for name, ks in sorted(locs.items()):
             has_in = has_out = escapes = False
+            same = {name}
+            todo = [name]
+            while todo:
+                for y in copies.get(todo.pop(), ()):
+                    if y not in same:
+                        same.add(y)
+                        todo.append(y)
             for n in walk_no_nested(f.node):
                 if isinstance(n, ast.Call) and isinstance(n.func, ast.Attribute) and \
                         n.func.attr == "add_edge" and len(n.args) >= 2:
-                    if isinstance(n.args[0], ast.Name) and n.args[0].id == name:
+                    if isinstance(n.args[0], ast.Name) and n.args[0].id in same:
                         has_out = True
-                    if isinstance(n.args[1], ast.Name) and n.args[1].id == name:
+                    if isinstance(n.args[1], ast.Name) and n.args[1].id in same:
                         has_in = True
-                elif isinstance(n, ast.Return) and n.value is not None and name in paths.load_names(n.value):
+                    # nodes are identified by value: an equal node constructed in place is the same vertex
+                    if isinstance(n.args[0], ast.Call) and kinds.ctor_kind(n.args[0]) in ks:
+                        has_out = True
+                    if isinstance(n.args[1], ast.Call) and kinds.ctor_kind(n.args[1]) in ks:
+                        has_in = True
+                elif isinstance(n, ast.Return) and n.value is not None and (same & paths.load_names(n.value)):
                     escapes = True
                 elif isinstance(n, ast.Call) and not (isinstance(n.func, ast.Attribute) and
                                                       n.func.attr == "add_edge"):
-                    if any(isinstance(a, ast.Name) and a.id == name for a in n.args):
+                    if any(isinstance(a, ast.Name) and a.id in same for a in n.args):
                         escapes = True
             exempt = K6_EXEMPT.get((f.name, "/".join(sorted(ks))))
             ok = (has_in and has_out) or escapes or exempt is not None
@@ -1001,7 +1088,8 @@ def _check_hoist(db: DB, rep: Report, fg: ClassInfo) -> None:
         if isinstance(n, ast.Assign) and len(n.targets) == 1 and isinstance(n.targets[0], ast.Name):
             v = n.value
             if isinstance(v, ast.Call) and norm(v.func).endswith("descendants") and len(v.args) == 2 and \
-                    norm(v.args[0]) == "self.graph" and norm(v.args[1]) == "LoopNode(%s)" % rank_var:
+                    norm(v.args[0]) == "self.graph" and \
+                    paths.inlined_text(v.args[1], fn) == "LoopNode(%s)" % rank_var:
                 desc_names.add(n.targets[0].id)
     # loop index: name bound to self.sorted.index(LoopNode(rank))
     idx_names: Set[str] = set()
@@ -1009,7 +1097,7 @@ def _check_hoist(db: DB, rep: Report, fg: ClassInfo) -> None:
         if isinstance(n, ast.Assign) and len(n.targets) == 1 and isinstance(n.targets[0], ast.Name):
             v = n.value
             if isinstance(v, ast.Call) and norm(v.func) == "self.sorted.index" and \
-                    norm(v.args[0]) == "LoopNode(%s)" % rank_var:
+                    paths.inlined_text(v.args[0], fn) == "LoopNode(%s)" % rank_var:
                 idx_names.add(n.targets[0].id)
     defs = paths.single_assignments(fn)
     for site in dels + pops + inss:
